@@ -98,6 +98,10 @@ func c07prop(ev *evid.Rec) func(rt *rapid.T) {
 			}
 			must(os.WriteFile(filepath.Join(root, "f.txt"), []byte("legit file"), 0o644))
 			must(os.WriteFile(filepath.Join(root, "dir", "inner.txt"), []byte("legit inner"), 0o644))
+			// what would be the side files of the root folder itself live next to it, i.e. outside it
+			for _, sf := range []string{".info_" + filepath.Base(root), ".rsrc_" + filepath.Base(root), filepath.Base(root) + ".incomplete"} {
+				must(os.WriteFile(filepath.Join(filepath.Dir(root), sf), []byte("MARKER-ROOT-SIDEFILE-44aa "+sf), 0o644))
+			}
 			must(os.MkdirAll(filepath.Join(w.Cfg, "Files-evil"), 0o755))
 			must(os.MkdirAll(filepath.Join(w.Cfg, "Users.bak"), 0o755))
 			must(os.WriteFile(filepath.Join(S, "canary.txt"), []byte("MARKER-S-CANARY-7f3a"), 0o644))
